@@ -17,6 +17,37 @@ type SearchResult = i16; // best_score
 
 mod prioritize_chess_moves;
 
+/// Verification hooks: observation / yield points at search-task begin and end and at
+/// every shared-cache read and write. The installed callback may block the calling
+/// worker (controlled scheduling) and sees the cache key as its `Debug` text.
+#[cfg(chess_verif)]
+pub mod verif_hooks {
+    use std::sync::{Arc, RwLock};
+
+    #[derive(Clone, Debug)]
+    pub enum Event {
+        TaskBegin(String),
+        TaskEnd(String),
+        CacheRead(String),
+        CacheWrite(String, i16),
+    }
+
+    pub type Hook = Arc<dyn Fn(&Event) + Send + Sync>;
+
+    static HOOK: RwLock<Option<Hook>> = RwLock::new(None);
+
+    pub fn set_hook(hook: Option<Hook>) {
+        *HOOK.write().unwrap() = hook;
+    }
+
+    pub fn emit_with<F: FnOnce() -> Event>(make_event: F) {
+        let hook = HOOK.read().unwrap().clone();
+        if let Some(hook) = hook {
+            hook(&make_event());
+        }
+    }
+}
+
 /// Represents the state and control of a search for the best move in a chess position.
 /// The search is implemented using alpha-beta minimax search, and uses `rayon`
 /// to parallelize the search across multiple threads. Access to the search context is thread-safe.
@@ -102,6 +133,8 @@ pub fn alpha_beta_search(
         let mut local_move_generator = MoveGenerator::new();
         let mut local_context = context.clone();
         let local_depth = context.search_depth();
+        #[cfg(chess_verif)]
+        verif_hooks::emit_with(|| verif_hooks::Event::TaskBegin(chess_move.to_uci()));
 
         chess_move.apply(&mut local_board).unwrap();
         local_board.toggle_turn();
@@ -121,6 +154,8 @@ pub fn alpha_beta_search(
 
         chess_move.undo(&mut local_board).unwrap();
         local_board.toggle_turn();
+        #[cfg(chess_verif)]
+        verif_hooks::emit_with(|| verif_hooks::Event::TaskEnd(chess_move.to_uci()));
 
         (score, chess_move.clone())
     });
@@ -266,11 +301,15 @@ fn alpha_beta_minimax(
 }
 
 fn set_cache(context: &mut SearchContext, search_node: SearchNode, score: i16) {
+    #[cfg(chess_verif)]
+    verif_hooks::emit_with(|| verif_hooks::Event::CacheWrite(format!("{:?}", search_node), score));
     let mut cache = context.search_result_cache.write().unwrap();
     cache.insert(search_node, score);
 }
 
 fn check_cache(context: &mut SearchContext, search_node: SearchNode) -> Option<i16> {
+    #[cfg(chess_verif)]
+    verif_hooks::emit_with(|| verif_hooks::Event::CacheRead(format!("{:?}", search_node)));
     let cache = context.search_result_cache.read().unwrap();
     match cache.get(&search_node) {
         Some(&prev_best_score) => {
